@@ -179,7 +179,7 @@ def run_case(case, ch: Choices) -> RunResult:
     vmode = ch.draw("cfg.verify", 3)
     verify = [False, True, True][vmode]
     remote_cfg = {"remote_schema_headers": {"Authorization": "$SIM_TOKEN", "X-Static": "plain value", "X-Dollar-Later": "a$b",
-                                            "X-Prefixed": "Bearer $SIM_TOKEN"}}
+                                            "X-Prefixed": "Bearer $SIM_TOKEN", "X-Lower": "$sim_lower_Token2"}}
     if vmode != 2:
         remote_cfg["remote_schema_verify_ssl"] = verify     # vmode 2: option left out, the documented default is true
     try:
@@ -198,6 +198,26 @@ def run_case(case, ch: Choices) -> RunResult:
             return res
         desc_a = describe_package(ma["targets"][0])
         compared = 0
+        # (a') the same single files under other legal names: a file named explicitly is read whatever it is called
+        if ch.chance("lay.single_file_odd_name", 1, 2):
+            names = ch.pick("lay.odd_names", [("api.sdl", "operations.txt"), ("schema.graphql.txt", "queries"), ("schema", "ops.graphql.bak"),
+                                              ("SCHEMA.GQL", "Queries.GraphQL"), ("sch\u00e9ma d\u00e9finitif.graphqls", "requ\u00eates.gql")])
+            root_a2 = os.path.join(base, "a_other_names")
+            ma2 = worlds.materialize(world, root_a2, single_file_names=names)
+            ra2 = genrun.run_child(root_a2, ma2["argv"], ma2["targets"])
+            if ra2.get("harness_failure"):
+                raise RuntimeError("child failed: %s" % ra2.get("child_stderr"))
+            res.bump("source.single_file_under_another_name")
+            if ra2.get("exit") != 0:
+                exc2 = ra2.get("exc") or {}
+                res.violations.append(Violation("partition-fails", "the single files named %r fail to generate (%s: %s) while schema.graphql / queries.graphql work" % (
+                    names, exc2.get("type"), (exc2.get("msg") or "")[:300]), {"exc": exc2.get("type"), "single_file": True}))
+            else:
+                d2 = [x for x in diff_descriptions(desc_a, describe_package(ma2["targets"][0]))]
+                if d2:
+                    res.violations.append(Violation("partition-changes-client", "single files named %r vs schema.graphql / queries.graphql: %s" % (
+                        names, "; ".join(d2)[:1200]), {"file": "single_file"}))
+                compared += 1
         # (b) partitions
         nparts = p.get("partitions", 1 + ch.draw("lay.nparts", 2))
         for pi in range(nparts):
@@ -286,7 +306,7 @@ def run_case(case, ch: Choices) -> RunResult:
                 pre_runs = [{"cwd": root_p, "argv": mp_["argv"], "env": {"SIM_TOKEN_OLD": "old-" + token}}] * (1 + ch.draw("remote.npre", 2))
                 res.bump("remote.same_process_earlier_introspection")
             loc_c = genrun.LOCALE_ENVS[ch.draw("env.locale_remote", len(genrun.LOCALE_ENVS))] if world.get("locale_safe") else None
-            env_c = {"SIM_TOKEN": token, "SIM_OTHER_" + token.rsplit("_", 1)[-1]: "wrong-value"}
+            env_c = {"SIM_TOKEN": token, "SIM_OTHER_" + token.rsplit("_", 1)[-1]: "wrong-value", "sim_lower_Token2": "lower-" + token}
             unset_c = []
             if fault and fault["kind"] == "env_empty":
                 env_c["SIM_TOKEN"] = ""          # exported but empty (a CI secret that is not available to this build)
@@ -316,7 +336,8 @@ def run_case(case, ch: Choices) -> RunResult:
                     res.violations.append(Violation("introspection-request", "request body is not an introspection query: %r" % (rq.get("query") or "")[:100], {}))
                 if (hd.get("content-type") or [""])[0].split(";")[0].strip() != "application/json":
                     res.violations.append(Violation("introspection-request", "introspection POST has Content-Type %r" % hd.get("content-type"), {}))
-                want = {"authorization": token, "x-static": "plain value", "x-dollar-later": "a$b", "x-prefixed": "Bearer $SIM_TOKEN"}
+                want = {"authorization": token, "x-static": "plain value", "x-dollar-later": "a$b", "x-prefixed": "Bearer $SIM_TOKEN",
+                        "x-lower": "lower-" + token}
                 for k, v in want.items():
                     if hd.get(k) != [v]:
                         res.violations.append(Violation("introspection-headers", "header %s sent as %r, configured value resolves to %r" % (k, hd.get(k), v), {"header": k}))
